@@ -293,30 +293,15 @@ def run(check):
     obs = pmap(lambda t: t.run(), tasks)
     # a REAL (exact rational) failure is only a sufficient-condition failure: the property asks for
     # "within a few ulps"; decide by the NOISY obligation in all three numeric types
-    byname = {t.ob.name: t for t in tasks}
+    # the verdict for numeric type T is the NOISY obligation of T (exact IEEE emulation of the constants in T): a constant that
+    # is not the oracle's exact rational but is within the bound in T leaves the conversions of T unchanged
+    status_by_name = {ob.name: ob.status for ob in obs}
     for t, ob in zip(tasks, obs):
         if ob.status == 'failed' and '.real.' in ob.name and isinstance(t, AltTask):
-            sc0 = t.alts[0][0]
-            leaf = sc0.f
-            m = re.match(r'C01\.leaf\.(\w+)\.(\w+)\.(To|From)\.', ob.name)
-            ut, uname, direction = 'Unit::' + m.group(1), m.group(2), m.group(3)
-            okall = True
-            for T2 in ('float', 'double', 'long double'):
-                try:
-                    units_T = units if T2 in units.types else None
-                    if units_T is None:
-                        okall = False
-                        break
-                    leaf2 = units.leaf_of(units.loop_funcs(ut, T2, direction)[uname])
-                    nt = NoisyTask(check, ob.name + '.fallback-ulp.' + T2.replace(' ', '_'), units.low, leaf2, ut, t.sym, UA.n_alternatives(t.sym), direction, T2, ob.loc)
-                    r2 = nt.run()
-                    if r2.status != 'discharged':
-                        okall = False
-                except Exception:
-                    okall = False
-            if okall:
+            ulp_name = ob.name.replace('.real.', '.ulp.')
+            if status_by_name.get(ulp_name) == 'discharged':
                 ob.status = 'discharged'
-                ob.detail = 'not the exact rational of the oracle, but within %d u of it in float, double and long double (NOISY fallback)' % KULP
+                ob.detail = 'not the exact rational of the oracle, but within %d u of it in this numeric type (%s discharged)' % (KULP, ulp_name)
     for ob in obs:
         check.add(ob)
     # dispatch: ConvertInPlace(x, from, to) == From_to(To_from(x)) for all enumerators in range
